@@ -165,7 +165,7 @@ Fixpoint model_from (allow : string -> string -> bool) (a : aclcfg) (rq : option
   | [], [] => (match acc with None => [] | Some _ => [(i, 1%N)] end, st)
   | s :: ops', ob :: obs' =>
       let '(st', g, cr) := run_step allow a rq st s in
-      let is_sub := match s with SSub => true | _ => false end in
+      let is_sub := match s with SSub | SPoll => true | _ => false end in   (* a walk *)
       let v2 := if cres_eqb (ob_cres ob) cr then [] else [(i, 1%N)] in
       let vd := match ob_dump ob, is_sub && negb (N.eqb (ob_burst ob) 0) with
                 | Some d, false =>
@@ -317,6 +317,7 @@ Fixpoint burst_rest (ops : list step) (obs : list oobs) (writes : list noti) (k 
 Definition live_after (live : list string) (s : step) : list string :=
   match s with
   | SCache (CRemove t _) => filter (fun x => negb (String.eqb x t)) live
+  | SCache (CAdd t) | SCache (CChurn t) => t :: filter (fun x => negb (String.eqb x t)) live
   | _ => live
   end.
 
@@ -339,9 +340,25 @@ Definition tagged (i : nat) (l : list N) : list (nat * N) := map (fun t => (i, t
 Definition nothing_sent (g : list oresp) : list N :=
   match g with [] => [] | _ => [3%N] end.
 
+(** one walk (the Subscribe step or a poll trigger): exact when the subscriber
+    was quiescent around it, weak when it opens a burst *)
+Definition judge_walk (rq : request) (pf : gpath) (i : nat) (ob : oobs) (d : dump)
+  (ops' : list step) (obs' : list oobs) : list (nat * N) * nat :=
+  if N.eqb (ob_burst ob) 0 then (tagged i (kp_snapshot rq pf d (ob_group ob)), O)
+  else
+    match burst_rest ops' obs' [] 0 with
+    | Some (writes, last, _, _, k) =>
+        (tagged (i + k)
+                (match ob_dump last with
+                 | Some d1 => kp_weak rq pf d writes d1 (ob_group last)
+                 | None => [4%N]          (* the burst never became quiescent: no sync *)
+                 end), k)
+    | None => ([], O)                     (* malformed burst: the correspondence reports it *)
+    end.
+
 (** [act]: [None] before the Subscribe step or when the property does not
     apply; [Some (pf, polling)] afterwards.  [skip]: members of a burst already
-    judged together with its opening Subscribe step. *)
+    judged together with the walk that opened it. *)
 Fixpoint kp_from (rq : request) (i : nat) (live : list string) (act : option (gpath * bool))
   (seen_sub : bool) (skip : nat) (ops : list step) (obs : list oobs)
   : list (nat * N) * option (gpath * bool) :=
@@ -358,24 +375,14 @@ Fixpoint kp_from (rq : request) (i : nat) (live : list string) (act : option (gp
             else
               match c05_applicable live rq, ob_dump ob with
               | Some pf, Some d =>
-                  if N.eqb (ob_burst ob) 0 then
-                    (tagged i (kp_snapshot rq pf d (ob_group ob)), Some (pf, Z.eqb (r_mode rq) 2), O)
-                  else
-                    match burst_rest ops' obs' [] 0 with
-                    | Some (writes, last, _, _, k) =>
-                        (tagged (i + k)
-                                (match ob_dump last with
-                                 | Some d1 => kp_weak rq pf d writes d1 (ob_group last)
-                                 | None => [4%N]
-                                 end),
-                         Some (pf, Z.eqb (r_mode rq) 2), k)
-                    | None => ([], None, O)        (* malformed burst: the correspondence reports it *)
-                    end
+                  let j := judge_walk rq pf i ob d ops' obs' in
+                  (fst j, Some (pf, Z.eqb (r_mode rq) 2), snd j)
               | _, _ => ([], None, O)
               end
         | SPoll =>
             match act, ob_dump ob with
-            | Some (pf, true), Some d => (tagged i (kp_snapshot rq pf d (ob_group ob)), act, O)
+            | Some (pf, true), Some d =>
+                let j := judge_walk rq pf i ob d ops' obs' in (fst j, act, snd j)
             | Some (_, false), _ => (tagged i (nothing_sent (ob_group ob)), act, O)
             | _, _ => ([], act, O)
             end
